@@ -1665,14 +1665,10 @@ class _rrulestr(object):
             forceset = True
             unfold = True
 
-        TZID_NAMES = dict(map(
-            lambda x: (x.upper(), x),
-            re.findall('TZID=(?P<name>[^:;]+)[:;]', s)
-        ))
-        s = s.upper()
         if not s.strip():
             raise ValueError("empty string")
         if unfold:
+            # Unfold before anything else: a TZID value may be folded as well
             lines = s.splitlines()
             i = 0
             while i < len(lines):
@@ -1686,6 +1682,12 @@ class _rrulestr(object):
                     i += 1
         else:
             lines = s.split()
+        TZID_NAMES = dict(map(
+            lambda x: (x.upper(), x),
+            re.findall('TZID=(?P<name>[^:;]+)[:;]', '\n'.join(lines))
+        ))
+        lines = [line.upper() for line in lines]
+        s = s.upper()
         if (not forceset and len(lines) == 1 and (s.find(':') == -1 or
                                                   s.startswith('RRULE:'))):
             return self._parse_rfc_rrule(lines[0], cache=cache,
